@@ -241,4 +241,17 @@ theorem tf_dropout_keeps_one (n m : Nat) (shuffle : List Nat) (hm : 1 ≤ m) (hs
 example : dropoutKept 6 [4, 1] = [0, 2, 3, 5] := by decide
 example : [4, 1, 5, 0, 2, 3].Nodup ∧ ∀ i ∈ [4, 1, 5, 0, 2, 3], i < 6 := by decide          -- the hypotheses of `tf_dropout_kept` are satisfiable
 
+/-! ### `body[:]` is the identity selection; how many frames a step keeps -/
+
+/-- `body[:]` / `body[::1]` names every frame, in order: the unbounded slice with step 1 is the identity selection -/
+theorem slice_all_is_identity (n : Nat) : pySliceIndexes none none 1 n = List.range n := by
+  rw [slice_unbounded_is_step]
+  simp
+
+/-- the number of frames stepping by `k ≥ 1` keeps is `⌈n / k⌉` -/
+theorem slice_step_count (k n : Nat) : (pySliceIndexes none none k n).length = (n + k - 1) / k := by
+  rw [slice_unbounded_is_step]; simp
+
+example : pySliceIndexes none none 1 5 = [0, 1, 2, 3, 4] := by decide
+example : pySliceIndexes none none 2 5 = [0, 2, 4] := by decide
 end PoseVerif.Props.C16
